@@ -146,6 +146,11 @@ def install(engine):
     def f_SYM_INT(it, args, kw):
         return VInt(it.ctx.fresh_int('symint'))
 
+    def f_bool_of(it, args, kw):
+        # truth value of any modelled value (e.g. a match object / None)
+        from .symex import to_bool
+        return VBool(to_bool(it.ctx, args[0]))
+
     def f_ASSUME(it, args, kw):
         it.ctx.assume(truth(it.ctx, args[0]))
         return VNone
@@ -153,7 +158,7 @@ def install(engine):
     sf['SAME'] = VFunc(f_SAME, 'SAME')
     for n, f in (('SYM_BOX', f_SYM_BOX), ('SYM_STR', f_SYM_STR),
                  ('SYM_BYTES', f_SYM_BYTES), ('SYM_INT', f_SYM_INT),
-                 ('ASSUME', f_ASSUME)):
+                 ('ASSUME', f_ASSUME), ('bool_of', f_bool_of)):
         sf[n] = VFunc(f, n)
 
 
